@@ -53,7 +53,53 @@ Theorem tie_intensity_no_other_guard :
   intensity_pm_0 = [] /\ intensity_pm_2 = [] /\ intensity_pm_other = [].
 Proof. repeat split; reflexivity. Qed.
 
+
+(* ---- the WHOLE function, translated statement by statement (loop included) ---------------------------
+   ErgoGen.Exprs.go_supCheckRestartIntensity is generated from the body of act.supCheckRestartIntensity
+   (time.Now().UnixMilli() is the parameter now_ms, the `for` loop a Fixpoint on fuel).  For timestamps and
+   periods in the ranges the callers produce, and fuel covering the list, it IS the model's [check]. *)
+Definition ts_ok (x : Z) : Prop := - 2 ^ 62 <= x < 2 ^ 62.
+
+Lemma loop_is_prune fuel now pm l :
+  (List.length l <= fuel)%nat -> ts_ok now -> Forall ts_ok l ->
+  go_supCheckRestartIntensity_loop1 fuel now pm l = prune now pm l.
+Proof.
+  revert l. induction fuel as [|fuel IH]; intros l Hl Hn Hall.
+  - destruct l; [reflexivity | cbn in Hl; lia].
+  - destruct l as [|x tl]; [reflexivity|].
+    cbn [go_supCheckRestartIntensity_loop1 prune]. inversion Hall as [|? ? Hx Htl]; subst.
+    replace (Z.of_nat (List.length (x :: tl)) >? 0) with true by (cbn [List.length]; lia).
+    cbn [andb nth Z.to_nat skipn]. change (Z.to_nat 0) with 0%nat. change (Z.to_nat 1) with 1%nat. cbn [nth skipn].
+    unfold ts_ok in *. change (2 ^ 62) with 4611686018427387904 in *.
+    rewrite swrap_small by (gowrap; lia).
+    destruct (now - x >? pm); [|reflexivity]. apply IH; [cbn in Hl; lia | exact Hn | exact Htl].
+Qed.
+
+Theorem tie_intensity_function : forall fuel now restarts period intensity,
+  (List.length restarts + 1 <= fuel)%nat -> ts_ok now -> Forall ts_ok restarts -> 0 <= period < 2 ^ 16 ->
+  go_supCheckRestartIntensity fuel now restarts period intensity = check restarts now period intensity.
+Proof.
+  intros fuel now restarts period intensity Hf Hn Hall Hp.
+  unfold go_supCheckRestartIntensity, check, zlen.
+  destruct (Z.of_nat (List.length (restarts ++ [now])) <=? intensity); [reflexivity|].
+  change (2 ^ 16) with 65536 in Hp.
+  rewrite (swrap_small 64 period) by (gowrap; lia). rewrite swrap_small by (gowrap; lia).
+  rewrite loop_is_prune.
+  - destruct (Z.of_nat (List.length (prune now (period * 1000) (restarts ++ [now]))) >? intensity) eqn:E;
+      f_equal; lia.
+  - rewrite app_length. cbn [List.length]. lia.
+  - exact Hn.
+  - apply Forall_app. split; [exact Hall | constructor; [exact Hn | constructor]].
+Qed.
+
+(* non-vacuity: a run of the translated function on concrete data *)
+Example tie_intensity_function_example :
+  go_supCheckRestartIntensity 10 10000 [1000; 7000; 9000] 5 2 = ([7000; 9000; 10000], true) /\
+  check [1000; 7000; 9000] 10000 5 2 = ([7000; 9000; 10000], true).
+Proof. split; vm_compute; reflexivity. Qed.
+
 Print Assumptions tie_intensity_guards.
+Print Assumptions tie_intensity_function.
 Print Assumptions tie_intensity_prune.
 Print Assumptions tie_intensity_period.
 Print Assumptions tie_intensity_no_other_guard.
